@@ -195,14 +195,17 @@ pub const K_IOCHAIN: u8 = 22; // loop whose body updates and prints several cell
 pub const K_CONSTLOOP: u8 = 23; // loop with a compile-time constant trip count (up to ~60)
 pub const K_ARRAY: u8 = 24; // pointer-shifting loop over an array of known length
 pub const K_ACCUMIN: u8 = 25; // loop that uses a cell and then overwrites it with input (read until zero)
-pub const K_COUNTED: u8 = 26; // with body
-pub const K_IFLIKE: u8 = 27; // with body
-pub const K_WHILE: u8 = 28; // with body
-pub const N_LEAF_KINDS: u8 = 26;
+pub const K_RESCALE: u8 = 26; // loop that rescales its own condition cell: x = f*x + c (terminates when the factor is even, at 8/16 bit)
+pub const K_COUNTED: u8 = 27; // with body
+pub const K_IFLIKE: u8 = 28; // with body
+pub const K_WHILE: u8 = 29; // with body
+pub const N_LEAF_KINDS: u8 = 27;
 
 pub const DIV_CANDIDATES: &[&str] = &[
     "+[]", "+[.]", "+[>+<]", "[]", "+[-+]", "+[[-]+]", ",[.]", "+[>]", "-[+>+<-]", ",[]", ",[>+<]", "+[>.<]", ",[[.]]", "+[>,<]", "+[>[-]<]", "[.]", "-[.+]", "+[[>]<]",
     // even steps never reach zero from an odd start; bodies with a hoistable write
+    // the loop rescales its own condition cell and sits on a fixed point (x = 2x - 1 at 1, x = 3x - 2 at 1, x = 2x + 2 at -2)
+    "+[>[-]<[->++<]>-[-<+>]<]", "+[>[-]<[->+++<]>--[-<+>]<.]", "--[>[-]<[->++<]>++[-<+>]<]", "+[>[-]<[->++<]>[-<+>]<->+<]",
     ",[-->[-]+<]", "+[-->[-]++<]", ",[++>[-]<]", "+++[-->+<]", ",[---->.<]", "+[++>[-]+<]", ",[>[-]+<--]", ",[>[]<-]", ",[[-]+]", "+[>[-]<[-]+]",
 ];
 
@@ -588,6 +591,44 @@ fn render_idiom(i: &Idiom, n: i64, w: &mut W) {
                 }
             }
         }
+        K_RESCALE => {
+            // while x { x = f*x + c (through scratch cell b, cleared first); count in d; optionally print }
+            // An even factor drives x to 0 within `width` rounds (feasible canonically at 8 and 16 bit);
+            // with an odd factor the loop ends only if it happens to hit 0.
+            let f = [2u64, 2, 4, 2, 6, 3, 2, 5][(k % 8) as usize];
+            if i.flag {
+                w.go(a);
+                w.rep('+', 1 + m % 3);
+            }
+            w.go(a);
+            w.e("[");
+            w.clear(b);
+            w.go(a);
+            w.e("[-");
+            w.go(b);
+            w.rep('+', f);
+            w.go(a);
+            w.e("]");
+            w.go(b);
+            match m % 4 {
+                0 => {}
+                1 => w.e("++"),
+                2 => w.e("--"),
+                _ => w.rep('+', f),
+            }
+            w.e("[-");
+            w.go(a);
+            w.e("+");
+            w.go(b);
+            w.e("]");
+            w.go(d);
+            w.e("+");
+            if m % 3 == 0 {
+                w.e(".");
+            }
+            w.go(a);
+            w.e("]");
+        }
         K_DIVCAND => {
             w.go(a);
             let cand = DIV_CANDIDATES[(k as usize * 4 + m as usize) % DIV_CANDIDATES.len()];
@@ -672,7 +713,7 @@ impl StructProg {
 fn kind_table(div: bool) -> Vec<u8> {
     let mut t = vec![
         K_ADD, K_ADD, K_OUT, K_IN, K_CLEAR, K_MOVEADD, K_MOVEADD, K_MOVEADD, K_STEPLOOP, K_COPY, K_COPY, K_DOUBLING, K_MUL, K_GEOMETRIC, K_GEOMETRIC, K_TRIANGULAR, K_TRIANGULAR,
-        K_OUTLOOP, K_INLOOP, K_SCAN, K_NONUNIT, K_REFILL, K_IFELSE, K_COUNTUP, K_SUBTRACT, K_SQUARE, K_SWAP, K_IOCHAIN, K_IOCHAIN, K_CONSTLOOP, K_ARRAY, K_ARRAY, K_ACCUMIN, K_ACCUMIN,
+        K_OUTLOOP, K_INLOOP, K_SCAN, K_NONUNIT, K_REFILL, K_IFELSE, K_COUNTUP, K_SUBTRACT, K_SQUARE, K_SWAP, K_IOCHAIN, K_IOCHAIN, K_CONSTLOOP, K_ARRAY, K_ARRAY, K_ACCUMIN, K_ACCUMIN, K_RESCALE, K_RESCALE,
     ];
     if div {
         for _ in 0..6 {
